@@ -101,7 +101,10 @@ class Sidecars:
             elif isinstance(node, ast.Expr) and isinstance(node.value, ast.Call) and isinstance(node.value.func, ast.Name) \
                     and node.value.func.id == "sorts":
                 for kw in node.value.keywords:
-                    self.attr_sorts[kw.arg] = ast.literal_eval(kw.value)
+                    if kw.arg is None:
+                        self.attr_sorts.update(ast.literal_eval(kw.value))
+                    else:
+                        self.attr_sorts[kw.arg] = ast.literal_eval(kw.value)
 
     def _contract(self, node: ast.ClassDef, d: ast.Call, path: str):
         key = ast.literal_eval(d.args[0])
